@@ -597,9 +597,18 @@ class Gen:
         r = self.rng
         if kind is None and self.bias == "decimal" and r.random() < 0.8:
             kind = "decimal"
-        kind = kind or r.choice(["small", "small", "small", "tiny", "huge", "neg", "irregular", "empty", "ns", "ns", "ns_ms", "decimal", "decimal"])
+        kind = kind or r.choice(["small", "small", "small", "tiny", "huge", "neg", "irregular", "empty", "ns", "ns", "ns_ms", "decimal", "decimal", "descending", "unsorted", "repeated"])
         if kind == "empty":
             return []
+        if kind in ("descending", "unsorted", "repeated"):
+            # grids the constructor accepts although they are not increasing: stored values must survive copies and sums
+            base = [Fraction(r.randint(-8, 8), r.choice([1, 2])) + i * Fraction(r.choice([1, 2]), r.choice([1, 2])) for i in range(r.choice([2, 3, 4, 6]))]
+            if kind == "descending":
+                return base[::-1]
+            if kind == "unsorted":
+                r.shuffle(base)
+                return base
+            return base[:1] + base + base[-1:]
         if kind == "decimal":
             return self.decimal_grid()
         if kind in ("ns", "ns_ms"):
@@ -1395,6 +1404,28 @@ def constructor_suite():
     return hs
 
 
+def copy_suite():
+    """copies and everything built on copies (EmptySignal + s in both orders, sum([...]), scaling) on ANY grid the
+    constructor accepts: descending, unsorted, repeated samples, a single sample, negative / huge times"""
+    F = Fraction
+    grids = {"descending": [F(3), F(2), F(1), F(0)], "unsorted": [F(1), F(-2), F(5, 2), F(0), F(7)],
+             "repeated": [F(0), F(0), F(1), F(1), F(2)], "single": [F(-3, 2)], "descending-2": [F(1), F(-1)],
+             "huge-descending": [F(2 ** 30 + 2), F(2 ** 30), F(-2 ** 20)]}
+    hs = []
+    for name, g in grids.items():
+        vals = [F(5, 2), F(-1), F(4), F(1, 4), F(-3)][:len(g)]
+        for vt in (0, 2):
+            hs.append([{"op": "newarr", "xs": [q_of(x) for x in g]}, {"op": "newarr", "xs": [q_of(x) for x in vals]},
+                       {"op": "mk", "cls": 0, "sub": False, "ta": 0, "va": 1, "vt": vt, "vtform": "enum", "fn": ["affine", [1, 1], [0, 1], [0, 1]]},
+                       {"op": "mk", "cls": 1, "sub": False, "ta": 0, "va": 1, "vt": 0, "vtform": "enum", "fn": ["affine", [1, 1], [0, 1], [0, 1]]},
+                       {"op": "copy", "i": 0}, {"op": "copy", "i": 1},
+                       {"op": "add", "i": 1, "j": 0}, {"op": "add", "i": 0, "j": 1}, {"op": "add", "i": 1, "j": 1},
+                       {"op": "radd", "i": 1, "k": 0}, {"op": "add", "i": 4, "j": 2},
+                       {"op": "mul", "i": 4, "q": [3, 2], "qform": "float"}, {"op": "copy", "i": 7},
+                       {"op": "pokevals", "i": 2, "k": 0, "q": [9, 1]}, {"op": "shift", "i": 4, "q": [1, 2], "qform": "float"}])
+    return hs
+
+
 def load_corpus():
     d = os.path.join(common.ROOT, "corpus", "C04")
     out = []
@@ -1442,6 +1473,9 @@ def run(ctx):
     for ops in regrid_suite():
         o, st, comp = execute(None, fixed_ops=ops)
         histories.append(("regrid-suite", o, st, comp))
+    for ops in copy_suite():
+        o, st, comp = execute(None, fixed_ops=ops)
+        histories.append(("copy-suite", o, st, comp))
     for ops in constructor_suite():
         o, st, comp = execute(None, fixed_ops=ops)
         histories.append(("constructor-suite", o, st, comp))
@@ -1454,7 +1488,7 @@ def run(ctx):
     ctx.oblige("corr:minutely-different-grids-refused", n_refused == 2 * len(near),
                "%d of %d sums over minutely different grids were refused" % (n_refused, 2 * len(near)))
     ctx.extra["near_equal_grid_pairs"] = {"histories": len(near), "refused_sums": n_refused, "expected_refused": 2 * len(near)}
-    n_rand = ctx.n(90, 3500)
+    n_rand = ctx.n(70, 3500)
     for n in range(n_rand):
         biased = (n % 4 == 1)
         o, st, comp = execute(None, rng=rng, max_ops=rng.choice([10, 18] if biased else [8, 15, 30, 30]), malformed=(n % 6 == 5),
